@@ -5,6 +5,8 @@ package kdcproxy
 
 import (
 	"errors"
+
+	"github.com/jcmturner/gofork/encoding/asn1"
 	"io"
 	"net"
 	"net/http"
@@ -120,6 +122,7 @@ func vpResetK() {
 	vpAllDialsFail = false
 	vpRealmCheck, vpAlwaysReply = false, false
 	vpSplitReplies = false
+	vpRealDER = false
 }
 
 // GetKDCs contract (gokrb5 randServOrder): error for an unknown realm, else (n, map{1..n -> host}).
@@ -179,8 +182,20 @@ func vpNetDial(network, address string) (net.Conn, error) {
 	return c, nil
 }
 
+//vp:use asn1der
+
+// vpRealDER: decode with the library's rules (shared harness part asn1der; natively the real library)
+// instead of the contract below.
+var vpRealDER bool
+
 // asn1 contract: total functions; DER details are not modelled.
 func vpASN1Unmarshal(b []byte, val interface{}) ([]byte, error) {
+	if vpRealDER {
+		if vpSymbolic() {
+			return vpDERUnmarshal(b, val)
+		}
+		return asn1.Unmarshal(b, val)
+	}
 	if !vpDERok {
 		return nil, errors.New("vp: asn1 syntax error")
 	}
@@ -439,5 +454,79 @@ func VP_C20_realm() {
 		// a realm that is not configured (case matters: realm names are case sensitive) reaches no KDC
 		vpAssert(len(vpDialLog) == 0, "unknown-realm-contacts-no-kdc")
 		vpAssert(w.status == 503, "unknown-realm-is-answered-503")
+	}
+}
+
+
+func vpDERLen(n int) []byte {
+	if n < 0x80 {
+		return []byte{byte(n)}
+	}
+	return []byte{0x81, byte(n)}
+}
+
+func vpDERWrap(tag byte, content []byte) []byte {
+	return append(append([]byte{tag}, vpDERLen(len(content))...), content...)
+}
+
+//vp:property C20
+//vp:bounds the request body is a KDC-PROXY-MESSAGE as MS-KKDCP defines it (EXPLICIT tags): SEQUENCE { [0] OCTET STRING kerb-message (4-byte prefix + 1 symbolic byte), [1] GeneralString target-domain absent / "BRANCH.TEST" / "DEFAULT.REALM" / "NOWHERE.TEST", [2] INTEGER dclocator-hint absent / one symbolic byte }, sent as it is or damaged in one of: a trailing byte after the SEQUENCE, the last byte cut off, the outer tag not a SEQUENCE (0x31), an indefinite outer length (0x80), an outer length one too large; one TCP KDC per configured realm, always replying
+//vp:assume gofork's asn1.Unmarshal as modelled by the shared harness part asn1der from its source (the real library runs natively and every path is compared); gokrb5's realm -> KDC resolution as in VP_C20_realm
+//vp:reach served refused
+func VP_C20_der() {
+	vpResetK()
+	vpRealDER = true
+	vpRealmCheck, vpAlwaysReply = true, true
+	vpUnknown = false
+	vpUDPn, vpTCPn = 0, 1
+	krb := []byte{0, 0, 0, 1, vpU8("krb")}
+	realm := []string{"", "BRANCH.TEST", "DEFAULT.REALM", "NOWHERE.TEST"}[vpIntRange("target-domain", 0, 3)]
+	body := vpDERWrap(0xA0, vpDERWrap(0x04, krb))
+	if realm != "" {
+		body = append(body, vpDERWrap(0xA1, vpDERWrap(0x1B, []byte(realm)))...)
+	}
+	if vpBool("has-dclocator-hint") {
+		h := vpU8("hint")
+		vpAssume(h < 0x80)
+		body = append(body, vpDERWrap(0xA2, vpDERWrap(0x02, []byte{h}))...)
+	}
+	msg := vpDERWrap(0x30, body)
+	damage := vpIntRange("damage", 0, 5)
+	switch damage {
+	case 1:
+		msg = append(msg, 0)
+	case 2:
+		msg = msg[:len(msg)-1]
+	case 3:
+		msg[0] = 0x31
+	case 4:
+		msg[1] = 0x80
+	case 5:
+		msg[1]++
+	}
+	r := &http.Request{Method: "POST", ContentLength: int64(len(msg)), Body: &vpBody{data: msg}}
+	w := &vpRW{hdr: http.Header{}}
+	vpProxy().Handler(w, r)
+	vpRunTasks()
+	vpObserve("status", uint64(w.status))
+	if damage != 0 {
+		vpReach("refused")
+		vpAssert(w.status == 400 && len(vpDialLog) == 0, "a-body-that-is-not-valid-der-or-has-trailing-bytes-is-400-and-contacts-no-kdc")
+		return
+	}
+	if realm == "NOWHERE.TEST" {
+		vpAssert(w.status == 503 && len(vpDialLog) == 0, "unknown-realm-contacts-no-kdc")
+		return
+	}
+	vpReach("served")
+	vpAssert(w.status == 200 && len(vpDialLog) == 1, "well-formed-message-is-relayed")
+	want := realm
+	if want == "" {
+		want = "DEFAULT.REALM"
+	}
+	vpAssert(vpRealmSeen == want || (realm == "" && vpRealmSeen == ""), "message-goes-to-a-kdc-of-the-named-realm")
+	if len(vpConns) == 1 {
+		c := vpConns[0]
+		vpAssert(len(c.written) == 1 && vpEqBytes(c.written[0], krb), "kdc-receives-exactly-the-embedded-message")
 	}
 }
